@@ -99,6 +99,42 @@ def run(ctx):
         ops.append(("jwk.exc", {"prv": o, "pub": o}))
     ops.append(("jwk.exc", {"prv": ec["EC-P256"]}))
     ops.append(("jwk.exc", {"pub": ec["EC-P256"]}))
+    # invalid key material in every role and mode: a point off the curve (y+1, x+1, origin), a private value that does not
+    # belong to the point, a key without its coordinates, the point of a key on another curve under this curve's name -
+    # as local and as remote operand, with ECDH and with the three ECMR modes (multiply / add / subtract)
+    def bump(k, m):
+        c = M.CURVES[k["crv"]]
+        v = (int.from_bytes(M.b64d(k[m]), "big") + 1) % c["p"]
+        return dict(k, **{m: M.b64u(v.to_bytes(c["len"], "big"))})
+    for n_ in names:
+        good = ec[n_]
+        peers = [ec[m_] for m_ in names if m_ != n_ and ec[m_]["crv"] == good["crv"]] or [good]
+        peer = peers[0]
+        other = next(ec[m_] for m_ in names if ec[m_]["crv"] != good["crv"] and len(M.b64d(ec[m_]["x"])) == len(M.b64d(good["x"]))) if any(
+            ec[m_]["crv"] != good["crv"] and len(M.b64d(ec[m_]["x"])) == len(M.b64d(good["x"])) for m_ in names) else None
+        bad = [("y+1", bump(good, "y")), ("x+1", bump(good, "x")), ("origin", dict(good, x=M.b64u(bytes(len(M.b64d(good["x"])))), y=M.b64u(bytes(len(M.b64d(good["y"])))))),
+               ("d of another key", dict(good, d=peer["d"]) if peer is not good else dict(good, d=M.b64u((M.scalar(good) + 1).to_bytes(len(M.b64d(good["d"])), "big")))),
+               ("no coordinates", {k_: v_ for k_, v_ in good.items() if k_ not in ("x", "y")}), ("no y", {k_: v_ for k_, v_ in good.items() if k_ != "y"})]
+        if other is not None:
+            bad.append(("point of a %s key" % other["crv"], dict(good, x=other["x"], y=other["y"])))
+        for label, b in bad:
+            for alg in (None, "ECDH", "ECMR"):
+                deco = {} if alg is None else {"alg": alg}
+                for bb in (b, {k_: v_ for k_, v_ in b.items() if k_ != "d"}):
+                    for pp in (peer, K.public(peer)):
+                        ops.append(("jwk.exc", {"prv": dict(bb, **deco), "pub": dict(pp, **deco)}))
+                        ops.append(("jwk.exc", {"prv": dict(pp, **deco), "pub": dict(bb, **deco)}))
+    # key_ops shapes and the kty spelling together with an explicit algorithm
+    base = ec["EC-P256"]
+    peer = K.public(ec["EC-P256-b"])
+    for ko in (["sign", "deriveKey"], ["deriveBits"], [5, "deriveKey"], "deriveKey", ["derivekey"], ["deriveKey", "deriveKey"]):
+        for alg in (None, "ECDH", "ECMR"):
+            ops.append(("jwk.exc", {"prv": dict(base, key_ops=ko, **({} if alg is None else {"alg": alg})), "pub": peer}))
+            ops.append(("jwk.exc", {"prv": base, "pub": dict(peer, key_ops=ko, **({} if alg is None else {"alg": alg}))}))
+    for kty in ("ec", "Ec", "EC ", "ECC"):
+        for alg in ("ECDH", "ECMR"):
+            ops.append(("jwk.exc", {"prv": dict(base, kty=kty, alg=alg), "pub": dict(peer, kty=kty)}))
+            ops.append(("jwk.exc", {"prv": dict(base, alg=alg), "pub": dict(peer, kty=kty)}))
     real, _ = ctx.compare(ops, p_check, nontrivial)
     # symmetry of ECDH on the real results
     res = {json.dumps(a, sort_keys=True): r for (o, a), r in zip(ops, real)}
